@@ -201,6 +201,8 @@ func runLBAff(x *X) {
 			}
 		}
 	}
+	var lastID identity
+	haveLast := false
 	traffic := func(concurrent bool) {
 		k := 8 + c.Intn(40, "ntraffic")
 		if concurrent {
@@ -241,11 +243,18 @@ func runLBAff(x *X) {
 		} else {
 			for i := 0; i < k && !x.dead; i++ {
 				id := ids[c.Intn(len(ids), "id")]
+				// whoever was served last before a change is often the first one back after it (a
+				// kept-alive client that keeps going): whatever the balancer remembers about "the
+				// previous request" is then about this very client
+				if i == 0 && haveLast && c.Intn(2, "last-client-first") == 0 {
+					id = lastID
+				}
 				sp := specOf(id)
 				sp.path = paths[c.Intn(len(paths), "path")]
 				var r simResult
 				x.Do("req", func() { r = h.do(sp) }, onErr)
 				note(id, r)
+				lastID, haveLast = id, true
 			}
 		}
 	}
